@@ -71,7 +71,9 @@ fn c18_leaf_roundtrip() {
 fn c18_leaf_total_exact() {
     let maclen: usize = kani::any();
     kani::assume(maclen <= 8);
-    let macbytes: [u8; 8] = kani::any();
+    // one 8-byte scalar, not eight 1-byte values: a sliced counterexample trace drops the bytes
+    // beyond maclen and the concrete playback would then be misaligned
+    let macbytes: [u8; 8] = kani::any::<u64>().to_be_bytes();
     let m = pb::HopField { exp_time: kani::any(), ingress: kani::any(), egress: kani::any(), mac: macbytes[..maclen].to_vec() };
     let in_range = m.exp_time <= 255 && m.ingress <= 65535 && m.egress <= 65535 && maclen == 6;
     let (e, i, g) = (m.exp_time, m.ingress, m.egress);
